@@ -123,7 +123,7 @@ func RuleMP1(c *Ctx) {
 
 // RuleIM1: inheriting from a base type never writes into the base.
 func RuleIM1(c *Ctx) {
-	sc := c.Run.Begin("IM1", "in the function that inherits properties from a base user type, no store goes through a pointer obtained from the base type (only through value copies): the base types are left as declared", 2)
+	sc := c.Run.Begin("IM1", "in the function that inherits properties from a base user type, no store goes through a pointer obtained from the base type (only through value copies): the base types are left as declared", 1)
 	defer sc.End()
 	unshift := c.Func("catalog", "SchemaContentJSight.Unshift")
 	utGet := c.Func("catalog", "UserTypes.Get")
@@ -235,7 +235,7 @@ func RuleIM1(c *Ctx) {
 // RulePS1: path schemas are checked before their children are read; unused
 // properties are reported on every path.
 func RulePS1(c *Ctx) {
-	sc := c.Run.Begin("PS1", "the stage that binds path parameters reads the children of a Path schema only after every Path schema passed the flat-object check (its error returns first), and for each Path directive the 'unused parameters' test follows the binding loop on every path", 2)
+	sc := c.Run.Begin("PS1", "the stage that binds path parameters reads the children of a Path schema only after every Path schema passed the flat-object check (its error returns first), and for each Path directive the 'unused parameters' test follows the binding loop on every path", 1)
 	defer sc.End()
 	pk := c.P.Pkg("core")
 	slot := c.Field("core", "rawPathVariable", "schema")
@@ -369,7 +369,7 @@ func RulePS1(c *Ctx) {
 
 // RuleDN1: descriptions reach the catalog only through the normaliser.
 func RuleDN1(c *Ctx) {
-	sc := c.Run.Begin("DN1", "the catalog's description setters are reached only from the Description handler, and there only after the normaliser ran (its error returns) and the result was tested for emptiness; the stored text is the normaliser's result", 2)
+	sc := c.Run.Begin("DN1", "the catalog's description setters are reached only from the Description handler, and there only after the normaliser ran (its error returns) and the result was tested for emptiness; the stored text is the normaliser's result", 1)
 	defer sc.End()
 	pk := c.P.Pkg("core")
 	cat := c.Named("catalog", "Catalog")
@@ -588,7 +588,7 @@ func RuleDN1(c *Ctx) {
 
 // RuleAN1: annotations and notes are normalised by one function.
 func RuleAN1(c *Ctx) {
-	sc := c.Run.Begin("AN1", "every store into Directive.Annotation and SchemaContentJSight.Note takes the result of the one annotation normaliser", 2)
+	sc := c.Run.Begin("AN1", "every store into Directive.Annotation and SchemaContentJSight.Note takes the result of the one annotation normaliser", 1)
 	defer sc.End()
 	ann := c.Func("catalog", "Annotation")
 	fields := []*types.Var{c.Field("directive", "Directive", "Annotation"), c.Field("catalog", "SchemaContentJSight", "Note")}
@@ -643,7 +643,7 @@ func RuleAN1(c *Ctx) {
 
 // RuleK2p: the description look-ahead and the keyword dispatcher use one table.
 func RuleK2p(c *Ctx) {
-	sc := c.Run.Begin("K2p", "the look-ahead that ends a description (does the next line start with a directive?) and the keyword-to-kind lookup read the same name table, and the scanner's description state calls that look-ahead", 2)
+	sc := c.Run.Begin("K2p", "the look-ahead that ends a description (does the next line start with a directive?) and the keyword-to-kind lookup read the same name table, and the scanner's description state calls that look-ahead", 1)
 	defer sc.End()
 	pk := c.P.Pkg("directive")
 	look := c.Func("directive", "IsStartWithDirective")
@@ -1128,7 +1128,7 @@ func (c *Ctx) descriptionNormaliser() (handler, norm *types.Func) {
 
 // RuleDN2: line-end normalisation is on every value path of the normaliser.
 func RuleDN2(c *Ctx) {
-	sc := c.Run.Begin("DN2", "in the description normaliser every value path from the raw body to a success result passes through the replacement of CR LF and then of CR by LF, whichever spelling (bare or parenthesised) the body has", 2)
+	sc := c.Run.Begin("DN2", "in the description normaliser every value path from the raw body to a success result passes through the replacement of CR LF and then of CR by LF, whichever spelling (bare or parenthesised) the body has", 1)
 	defer sc.End()
 	_, norm := c.descriptionNormaliser()
 	if norm == nil {
@@ -1527,7 +1527,7 @@ func labelTarget(body *ast.BlockStmt, name string) (ast.Stmt, bool) {
 // RuleLC1: loops that bind path parameters visit every element.
 func RuleLC1(files ...string) func(c *Ctx) {
 	return func(c *Ctx) {
-		sc := c.Run.Begin("LC1", "in the path-parameter code every loop that accumulates (appends to an outer slice, fills an outer map, or propagates a per-element error) runs over all elements: it is left early only with an error or under a condition that does not look at the current element, never by a break or a success return that depends on the element at hand", 2)
+		sc := c.Run.Begin("LC1", "in the path-parameter code every loop that accumulates (appends to an outer slice, fills an outer map, or propagates a per-element error) runs over all elements: it is left early only with an error or under a condition that does not look at the current element, never by a break or a success return that depends on the element at hand", 1)
 		defer sc.End()
 		inScope := map[string]bool{}
 		for _, f := range files {
@@ -1591,7 +1591,7 @@ func RuleLC1(files ...string) func(c *Ctx) {
 // declaration ("has no allOf at the root, skip") leaves the declaration to be expanded,
 // or not, as a side effect of whatever else refers to it.
 func RulePA1(c *Ctx) {
-	sc := c.Run.Begin("PA1", "every top-level call of the allOf expander (one per kind of declared schema) is reached under no condition other than nil tests, type assertions and the notation test, and lies in a function the allOf stage calls unconditionally", 2)
+	sc := c.Run.Begin("PA1", "every top-level call of the allOf expander (one per kind of declared schema) is reached under no condition other than nil tests, type assertions and the notation test, and lies in a function the allOf stage calls unconditionally", 1)
 	defer sc.End()
 	pk := c.P.Pkg("core")
 	exp := c.allOfExpander()
@@ -2016,7 +2016,7 @@ func (c *Ctx) allOfExpander() *types.Func {
 // order the quoted spelling of a value ("[@cat]") is classified differently from the bare
 // one ([@cat]).
 func RuleQ2(c *Ctx) {
-	sc := c.Run.Begin("Q2", "Unquote is applied before any other end-sensitive transformation of a parameter value: its receiver is never the result of another Bytes-to-Bytes method (whitespace trims excepted)", 2)
+	sc := c.Run.Begin("Q2", "Unquote is applied before any other end-sensitive transformation of a parameter value: its receiver is never the result of another Bytes-to-Bytes method (whitespace trims excepted)", 1)
 	defer sc.End()
 	n := 0
 	perFn := map[*ast.FuncDecl]int{}
